@@ -446,6 +446,18 @@ inductive CEffect where
   | other (text : String)
   deriving DecidableEq, Repr, Inhabited
 
+/-! ### `Extend` / `FromIterator` -/
+
+inductive CollEffect where
+  | pure                 -- a local that involves neither the interner nor control flow (iterator, size hint, capacity)
+  | buildWithHint        -- `Self::with_capacity_and_hasher(Capacity::for_strings(hint), <default hasher>)`
+  | buildDefault         -- `Self::new()` / `Self::default()`
+  | loopBegin | loopEnd  -- one turn per item, in order (for / while-let-next / loop-match-next / for_each)
+  | internItem           -- `<the interner>.get_or_intern(item.as_ref())`
+  | returnBuilt
+  | other (text : String)
+  deriving DecidableEq, Repr, Inhabited
+
 /-! ### Release of storage blocks -/
 
 inductive MemKind where
